@@ -49,9 +49,10 @@ def run(ctx):
     # while the main thread has handed everything over and waits: the error must come back, not a hang
     for d_ in (datas[2] if len(datas) > 2 else b'x' * 3000, b'y' * 20000):
         for th in (0, 1, 3):
-            for to in (0, 1):
-                cfg = 0 | (1 << 8) | (th << 12) | (to << 16) | (1 << 20)
-                lines.append('enc 1 %d %d %d lzma1:dict=4KiB %s' % (cfg, rng.choice([0, 3]), rng.randrange(1 << 20), d_.hex())); meta.append((0, 0, 0, 'mustfail'))
+            for to in (0, 0, 1):
+              for rep in range(4 if ctx.quick() else 30):      # whether the main thread is already waiting when the worker fails is a matter of timing
+                cfg = 0 | (1 << 8) | (th << 12) | (to << 16) | (rng.choice([1, 2, 8]) << 20)
+                lines.append('enc 1 %d %d %d lzma1:dict=4KiB %s' % (cfg, rng.choice([0, 0, 3]), rng.randrange(1 << 20), d_.hex())); meta.append((0, 0, 0, 'mustfail'))
     outs = [None] * len(lines); fails = []
     for ss in range(4):
         idx = [i for i in range(len(lines)) if i % 4 == ss]
